@@ -1,4 +1,163 @@
-import AffVerif.Model.Reduce
-/-! # C05 (theorems added below as they are proved) -/
+import AffVerif.Proofs.CacheReduce
+import AffVerif.Props.C04
+import AffVerif.Props.C03
+/-!
+# C05 — cached feasibility data stays sound under every operation history
+
+The cache invariant of a tree (`CacheOK`):
+
+* `WitSound tol []` — every witness stored at a node satisfies all path conditions from the root to that node, within
+  the containment tolerance `tol` of the code (`contains`, 1e-8);
+* `InfSound []` — a node marked `Infeasible` has an empty closed path region;
+* `InfOnly` — a node marked `Infeasible` has no sibling (structural; needed for `reduce`);
+* `Shaped 2 n m` — the tree is well formed (C04), which the sweep needs.
+
+Step theorems for every operation of the history alphabet and their closure under histories of any length. The
+hypotheses on the oracles are exactly the two contracts the property names:
+
+* `InfeasibleSound lp` — the LP backend answers *infeasible* only for empty polytopes (C10; everything else it
+  answers may be wrong: errors, unbounded, bogus witnesses — the sweep re-checks every point with `contains`);
+* `MirrorSound tol mirror` — the points `mirror_points` returns lie in the polytope they were asked for (the third
+  clause of C05; the judge checks it on every stored witness of every replayed history).
+
+The pruned composition needs no hypothesis: copied nodes start `Indeterminate` whatever the filter answered.
+-/
+set_option linter.unusedSectionVars false
+set_option linter.unusedVariables false
 namespace AV
+variable {α : Type} [Field α] [LinearOrder α] [IsStrictOrderedRing α]
+
+/-- the cache invariant of a whole tree over `n` inputs with `m` outputs -/
+def CacheOK (tol : α) (n m : Nat) (t : PT α) : Prop :=
+  PT.Shaped 2 n m t ∧ PT.InfSound [] t ∧ PT.WitSound tol [] t ∧ PT.InfOnly t
+
+/-- a tree without cached data (every constructor, every operand copy) satisfies the invariant -/
+theorem C05_fresh (tol : α) (n m : Nat) (t : PT α) (hs : PT.Shaped 2 n m t) (hf : PT.Fresh t) : CacheOK tol n m t :=
+  ⟨hs, PT.infSound_of_fresh t [] hf, PT.witSound_of_fresh tol t [] hf, PT.infOnly_of_fresh t hf⟩
+
+theorem C05_apply_func (tol : α) (n : Nat) (t : PT α) (a : Aff α) (ha : a.WF) (h : CacheOK tol n a.indim t) :
+    CacheOK tol n a.outdim (PT.applyFunc t a) :=
+  ⟨C04_apply_func t a 2 n ha h.1, PT.infSound_mapTerminals _ t [] h.2.1, PT.witSound_mapTerminals tol _ t [] h.2.2.1,
+    PT.infOnly_mapTerminals _ t h.2.2.2⟩
+
+/-- negation and the mixed tree/affine operators -/
+theorem C05_scalar_op (tol : α) (φ : Aff α → Aff α) (n m : Nat) (t : PT α)
+    (hφ : ∀ a : Aff α, a.WF → a.indim = n → a.outdim = m → (φ a).WF ∧ (φ a).indim = n ∧ (φ a).outdim = m)
+    (h : CacheOK tol n m t) : CacheOK tol n m (PT.mapTerminals φ t) :=
+  ⟨C04_scalar_op φ t 2 n m hφ h.1, PT.infSound_mapTerminals φ t [] h.2.1, PT.witSound_mapTerminals tol φ t [] h.2.2.1,
+    PT.infOnly_mapTerminals φ t h.2.2.2⟩
+
+/-- un-pruned composition: the operand's cached states are not copied (whatever they are) -/
+theorem C05_compose (tol : α) (n m p : Nat) (f g : PT α) (c : Nat) (h : CacheOK tol n m f) (hg : PT.Shaped 2 m p g) :
+    CacheOK tol n p (PT.composeS Schema.compose f g c).1 :=
+  ⟨C04_compose f g c 2 n m p h.1 hg, PT.infSound_composeS _ f g c [] h.2.1, PT.witSound_composeS tol _ f g c [] h.2.2.1,
+    PT.infOnly_composeS _ f g c h.2.2.2⟩
+
+/-- pruned composition, for every `explore` filter -/
+theorem C05_compose_prune {σ : Type} (tol : α) (ex : Explore σ α) (n m p : Nat) (f g : PT α) (s : σ) (c : Nat)
+    (h : CacheOK tol n m f) (hg : PT.Shaped 2 m p g) :
+    CacheOK tol n p (PT.composeP Schema.compose ex n [] f g s c).1 :=
+  ⟨C04_compose_prune ex f g s c 2 n m p [] h.1 hg, PT.infSound_composeP _ ex n [] f g s c h.2.1,
+    PT.witSound_composeP tol _ ex n [] f g s c h.2.2.1, PT.infOnly_composeP _ ex n [] f g s c h.2.2.2⟩
+
+/-- the tree-tree operators -/
+theorem C05_arith {σ : Type} (tol : α) (op : ArithOp) (ex : Explore σ α) (n m : Nat) (f g : PT α) (s : σ) (c : Nat)
+    (h : CacheOK tol n m f) (hg : PT.Shaped 2 n m g) :
+    CacheOK tol n m (PT.composeP (Schema.arith op.onAff) ex n [] f g s c).1 :=
+  ⟨C04_arith_prune op ex f g s c 2 n m [] h.1 hg, PT.infSound_composeP _ ex n [] f g s c h.2.1,
+    PT.witSound_composeP tol _ ex n [] f g s c h.2.2.1, PT.infOnly_composeP _ ex n [] f g s c h.2.2.2⟩
+
+/-- `infeasible_elimination`, including `forward_if_redundant` and repeated runs on cached states -/
+theorem C05_elim {σ : Type} (tol : α) (O : Oracles σ α) (hlp : InfeasibleSound O.lp)
+    (hm : MirrorSound tol O.mirror) (n m : Nat) (t : PT α) (s : σ) (h : CacheOK tol n m t) :
+    CacheOK tol n m (infeasibleElimination tol O n t s).1 := by
+  obtain ⟨hs, hi, hw, ho⟩ := h
+  have hok := PT.elimOK_of_shaped t n m hs
+  refine ⟨C04_elim tol O n m t s hs, ?_, ?_, ?_⟩
+  · unfold infeasibleElimination
+    cases t with
+    | node i c ks =>
+      unfold PT.InfSound at hi
+      exact PT.infSound_elimNode tol O hlp n true [] c.state (.node i c ks) s hok hi.2 hi.1
+  · unfold infeasibleElimination
+    cases t with
+    | node i c ks =>
+      unfold PT.WitSound at hw
+      exact PT.witSound_elimNode tol O hm n true [] c.state (.node i c ks) s hok hw.2 hw.1
+  · exact PT.infOnly_elimNode tol O n true [] t.val.state t s hok ho
+
+theorem C05_reduce (tol : α) (n m : Nat) (t : PT α) (h : CacheOK tol n m t) : CacheOK tol n m (PT.reduce t) :=
+  ⟨C04_reduce t 2 n m h.1, PT.infSound_reduceAux true t [] h.2.1 h.2.2.2, PT.witSound_reduceAux tol true t [] h.2.2.1,
+    (PT.infOnly_reduceAux true t h.2.2.2).1⟩
+
+/-- one step of a history; the oracles of `elim` satisfy the two contracts, those of the pruned steps are arbitrary -/
+inductive CStep (tol : α) (n : Nat) : Nat → PT α → Nat → PT α → Prop where
+  | applyFunc (m : Nat) (t : PT α) (a : Aff α) (ha : a.WF) (hm : a.indim = m) :
+      CStep tol n m t a.outdim (PT.applyFunc t a)
+  | scalar (m : Nat) (t : PT α) (φ : Aff α → Aff α)
+      (hφ : ∀ a : Aff α, a.WF → a.indim = n → a.outdim = m → (φ a).WF ∧ (φ a).indim = n ∧ (φ a).outdim = m) :
+      CStep tol n m t m (PT.mapTerminals φ t)
+  | compose (m p : Nat) (t g : PT α) (c : Nat) (hg : PT.Shaped 2 m p g) :
+      CStep tol n m t p (PT.composeS Schema.compose t g c).1
+  | composePrune {σ : Type} (m p : Nat) (t g : PT α) (ex : Explore σ α) (s : σ) (c : Nat) (hg : PT.Shaped 2 m p g) :
+      CStep tol n m t p (PT.composeP Schema.compose ex n [] t g s c).1
+  | arith {σ : Type} (m : Nat) (t g : PT α) (op : ArithOp) (ex : Explore σ α) (s : σ) (c : Nat)
+      (hg : PT.Shaped 2 n m g) : CStep tol n m t m (PT.composeP (Schema.arith op.onAff) ex n [] t g s c).1
+  | elim {σ : Type} (m : Nat) (t : PT α) (O : Oracles σ α) (s : σ) (hlp : InfeasibleSound O.lp)
+      (hmi : MirrorSound tol O.mirror) : CStep tol n m t m (infeasibleElimination tol O n t s).1
+  | reduce (m : Nat) (t : PT α) : CStep tol n m t m (PT.reduce t)
+
+theorem C05_step (tol : α) (n m m' : Nat) (t t' : PT α) (h : CacheOK tol n m t) (st : CStep tol n m t m' t') :
+    CacheOK tol n m' t' := by
+  cases st with
+  | applyFunc _ _ a ha hm => subst hm; exact C05_apply_func tol n t a ha h
+  | scalar _ _ φ hφ => exact C05_scalar_op tol φ n m t hφ h
+  | compose _ _ _ g c hg => exact C05_compose tol n m m' t g c h hg
+  | composePrune _ _ _ g ex s c hg => exact C05_compose_prune tol ex n m m' t g s c h hg
+  | arith _ _ g op ex s c hg => exact C05_arith tol op ex n m t g s c h hg
+  | elim _ _ O s hlp hmi => exact C05_elim tol O hlp hmi n m t s h
+  | reduce => exact C05_reduce tol n m t h
+
+inductive CSteps (tol : α) (n : Nat) : Nat → PT α → Nat → PT α → Prop where
+  | nil (m : Nat) (t : PT α) : CSteps tol n m t m t
+  | cons (m m' m'' : Nat) (t t' t'' : PT α) : CStep tol n m t m' t' → CSteps tol n m' t' m'' t'' → CSteps tol n m t m'' t''
+
+/-- after any sequence of operations the caches are sound: every stored witness satisfies its path conditions within
+    `tol`, every node marked infeasible has an empty path region -/
+theorem C05_history (tol : α) (n m m' : Nat) (t t' : PT α) (h : CacheOK tol n m t) (hs : CSteps tol n m t m' t') :
+    CacheOK tol n m' t' := by
+  induction hs with
+  | nil => exact h
+  | cons m m' m'' t t' t'' st _ ih => exact ih (C05_step tol n m m' t t' h st)
+
+/-- what later operations rely on (C03): on a tree with sound caches the sweep and the pruned composition keep the
+    function — the hypothesis `InfSound []` of `C03_elim_sound` / `C03_compose_prune` holds in every reachable state -/
+theorem C05_caches_usable (tol : α) (n m m' : Nat) (t t' : PT α) (h : CacheOK tol n m t)
+    (hs : CSteps tol n m t m' t') : PT.Shaped 2 n m' t' ∧ PT.InfSound [] t' :=
+  let r := C05_history tol n m m' t t' h hs
+  ⟨r.1, r.2.1⟩
+
+/-- "later operations that trust these caches stay sound": after any history, a further sweep (which skips what the
+    caches mark) still represents the same function at every input -/
+theorem C05_trusting_sweep_sound {σ : Type} (tol : α) (n m m' : Nat) (t t' : PT α) (h : CacheOK tol n m t)
+    (hs : CSteps tol n m t m' t') (O : Oracles σ α) (hlp : InfeasibleSound O.lp) (s : σ) (x : List α) :
+    PT.eval (infeasibleElimination tol O n t' s).1 x = PT.eval t' x :=
+  let r := C05_history tol n m m' t t' h hs
+  C03_elim_sound tol O hlp n m' t' s x r.1 r.2.1
+
+/-- non-vacuity: a tree with a stored witness and a cached `Feasible` state satisfies the invariant -/
+def exCache : PT Rat :=
+  .node 0 ⟨⟨[[1]], [0], 1⟩, .indeterminate⟩
+    (.cons (some (.node 1 ⟨⟨[[2]], [1], 1⟩, .witness [[1]]⟩ (IKids.empty 2)))
+    (.cons (some (.node 2 ⟨⟨[[3]], [0], 1⟩, .feasible⟩ (IKids.empty 2))) .nil))
+
+example : CacheOK (1/100 : Rat) 1 1 exCache := by
+  refine ⟨?_, ?_, ?_, ?_⟩
+  · simp [exCache, PT.Shaped, PKids.Shaped, IKids.empty, IKids.length, IKids.allNone, Aff.WF, Aff.outdim]
+  · simp [exCache, PT.InfSound, PKids.InfSound, IKids.empty]
+  · simp [exCache, PT.WitSound, PKids.WitSound, IKids.empty, StWit, InPathTol, halfspace]
+
+    decide +kernel
+  · simp [exCache, PT.InfOnly, PKids.InfOnly, PKids.noInf, IKids.empty, IKids.count, ITree.val]
+
 end AV
